@@ -596,6 +596,18 @@ impl World {
                 })());
                 Observed::NoCall
             }
+            Op::SbomLink { layer, format, .. } => {
+                let rel = model_after.lsbom(*layer, *format);
+                let full = to_path(&self.root, &rel);
+                harness((|| {
+                    remove_any(&full)?;
+                    if let Some(crate::snap::Node::Symlink { target }) = model_after.snap.get(&rel) {
+                        std::os::unix::fs::symlink(OsStr::from_bytes(target), &full)?;
+                    }
+                    Ok(())
+                })());
+                Observed::NoCall
+            }
             Op::Restore { .. } => {
                 self.refs.clear();
                 let layers = self.root.join("layers");
